@@ -81,7 +81,9 @@ fn push_doc(w: &mut World, ctx: &mut Ctx, env: Envelope, m: Option<M>, what: &st
         },
     };
     check_doc(ctx, &env, &m, &bytes, what, independent);
-    ctx.t(&format!("{} -> {} {}B shape={:x}", what, dhex(&m.digest()), bytes.len(), m.shape_hash()));
+    // the hash of the encoding covers ciphertexts, nonces, salts and signatures: the trace proves that
+    // the library's entropy really is the seeded stream
+    ctx.t(&format!("{} -> {} {}B enc={} shape={:x}", what, dhex(&m.digest()), bytes.len(), dhex(&crate::model::sha(&bytes)), m.shape_hash()));
     ctx.shape_mix(m.shape_hash());
     if w.docs.len() >= MAX_DOCS {
         w.docs.remove(0);
